@@ -5,6 +5,7 @@ import DriverLib.Envelope
 import DriverLib.EnvState
 import DriverLib.Sign
 import DriverLib.Fetcher
+import DriverLib.Conc
 /-!
   Line-protocol driver: one JSON case per line on stdin, one JSON answer per line on stdout.
   `{"id":…, "k":<handler>, "in":{…}}`  ↦  `{"id":…, "out":{…}}` or `{"id":…, "error":"…"}`.
@@ -20,6 +21,7 @@ def dispatch (prop k : String) (i impl : Json) : E Json :=
   | "envstate" => handleEnvState i
   | "sign" => handleSign prop i impl
   | "fetch" => handleFetch i impl
+  | "conc" => handleConc i impl
   | "jwsread" => handleJwsRead prop i impl
   | "coseread" => handleCoseRead prop i impl
   | "noop" => do
